@@ -11,7 +11,7 @@ A failed expectation is a defect of the checker: reported as ANALYSIS-ERROR
 (exit 2), never as a VIOLATION.  Variants live under a temporary directory and
 are removed afterwards; evidence files are not touched by variant runs.
 
-python -m vt.selftest [--prop Cxx] [--kind fire|silent|seeded] [-v]
+python -m vt.selftest [--prop Cxx] [--kind fire|silent|seeded|kept] [-v]
 """
 from __future__ import annotations
 
@@ -276,6 +276,8 @@ def _run(job: Tuple[str, str, List[str], Any, Optional[str]]) -> Tuple[str, str,
     try:
         if kind == "seeded":
             cm = variant_from_patch(VERIF / "seeded" / jid / "patch.diff")
+        elif kind == "kept":
+            cm = variant_from_patch(VERIF / "kept" / jid / "patch.diff")
         else:
             @contextlib.contextmanager
             def cm_():
@@ -320,12 +322,18 @@ def jobs_for(prop: Optional[str], kinds: List[str]):
                 meta = json.loads((d / "meta.json").read_text())
                 if prop is None or meta["property"] == prop:
                     jobs.append(("seeded", d.name, [meta["property"]], None, None))
+    if "kept" in kinds and (VERIF / "kept").exists():
+        # behaviour-preserving refactors written by independent agents: every check stays silent on every one of them
+        from .cli import PROPS
+        for d in sorted((VERIF / "kept").iterdir()):
+            if d.is_dir() and (d / "patch.diff").exists():
+                jobs.append(("kept", d.name, [prop] if prop else list(PROPS), None, None))
     return jobs
 
 
 def run_selftest(prop: Optional[str] = None, kinds: Optional[List[str]] = None, verbose: bool = False) -> Tuple[int, int, List[str]]:
     """-> (n_run, n_ok, failures)"""
-    kinds = kinds or ["fire", "silent", "seeded"]
+    kinds = kinds or ["fire", "silent", "seeded", "kept"]
     jobs = jobs_for(prop, kinds)
     expect_rule = {j[1]: j[4] for j in jobs}
     failures: List[str] = []
